@@ -94,13 +94,18 @@ class Scenario:
         return {"action": self.action, "dir": str(d), "n": self.n, "salt": self.salt}
 
     def run(self, inject=None):
-        root, d = self.fresh_dir()
-        try:
-            r = ft.run_action(self.spec(d), inject=inject)
-            r["dir"] = os.fsencode(str(d))
-            return r
-        finally:
-            shutil.rmtree(root, ignore_errors=True)
+        for attempt in range(3):
+            root, d = self.fresh_dir()
+            try:
+                r = ft.run_action(self.spec(d), inject=inject)
+                r["dir"] = os.fsencode(str(d))
+                # under heavy load strace occasionally starts logging after the child was
+                # released (no BEGIN marker in the log): such a run observed nothing; repeat it
+                if r["error"] and "BEGIN marker not found" in r["error"] and attempt < 2:
+                    continue
+                return r
+            finally:
+                shutil.rmtree(root, ignore_errors=True)
 
 
 def target_state(content, old, new_payload):
